@@ -1,0 +1,7 @@
+//go:build !verif
+
+package ugo
+
+func verifStep(*VM) {}
+
+func verifSync(*VM, string) {}
